@@ -129,7 +129,7 @@ def step (st : St) (op impl : List String) : St × String × String :=
     match parseReq rest with
     | none => (st, "bad-op", "na")
     | some r =>
-      if !r.wf then (st, "bad-op", "na") else
+      if !(r.wf && r.ipwf) then (st, "bad-op", "na") else
       let nilT := mode == "nil"
       let t := realIP (if nilT then none else some st.cfg.trusted) r
       let v := match impl with
@@ -141,7 +141,7 @@ def step (st : St) (op impl : List String) : St × String × String :=
   | "get" :: srv :: route :: rest =>
     match parseServer srv, dec route, parseReq rest with
     | some s, some rt, some r =>
-      if !r.wf then (st, "bad-op", "na") else
+      if !(r.wf && r.ipwf) then (st, "bad-op", "na") else
       let code := endpointStatus s rt st.cfg r
       let m := if code = 0 then "open" else toString code
       let v := match impl with
